@@ -467,6 +467,7 @@ type concCase struct {
 	ofail    string // "" | "err" | "panic": a lifecycle element placed AFTER the async stage whose Open fails
 	dl       bool   // the caller's context ends by its DEADLINE (ctx.Err() = context.DeadlineExceeded) instead of a cancel call
 	mwf      bool   // the stage is MapWhileFilteringWithErrAndCtx with the concurrent option: the mapper filters elements i with i%3 == 1 out (nil)
+	cbms     int    // every concurrent-consume callback takes this many milliseconds (workers busy and the item channel full for long)
 	sofail   bool   // the SOURCE provider's Open fails (the asynchronous stage has nothing to read: no reader may be waited for)
 	osat     bool   // the failing Open waits until the stage has saturated (the source is no longer pulled: workers hold results nobody takes)
 	rep      int    // materialise the SAME stream value this many times (>= 1)
@@ -549,6 +550,8 @@ func parseConcCase(text string) (*concCase, error) {
 			cc.sofail = v == "1"
 		case "mwf":
 			cc.mwf = v == "1"
+		case "cbms":
+			cc.cbms = atoi()
 		case "dl":
 			cc.dl = v == "1"
 		case "slowat":
@@ -742,6 +745,9 @@ func (r *concRun) concConsumer(ctx context.Context, v int) error {
 	defer r.mgate.leave()
 	if out < 0 {
 		return ctx.Err()
+	}
+	if r.cc.cbms > 0 {
+		time.Sleep(time.Duration(r.cc.cbms) * time.Millisecond)
 	}
 	if r.cc.mp == v {
 		panic(errConcUser)
